@@ -532,7 +532,7 @@ impl Prop for C09 {
         "C09"
     }
     fn rule(&self) -> &'static str {
-        "exhaustive: every byte string of length<=3 through all five LEB128 readers (+ the leb128::read free functions); 24 continuation prefixes of 8/9 bytes x all 2^16 tails (accept/reject frontier at byte 10); all 2^16 values through 16-bit write->read; all sizes 0..=255 for sized reads; reserved initial lengths. random: boundary-biased 64-bit values through every writer and back, random byte strings <=24 bytes through every LEB reader, fixed-width reads vs from_{le,be}_bytes. Oracle: bit-group LEB128 model, independent encoder. Non-trivial = LEB input of >=2 bytes or a write->read case with a value >= 128; distinct by input bytes."
+        "exhaustive: every byte string of length<=3 through all five LEB128 readers (+ the leb128::read free functions); 24 continuation prefixes of 8/9 bytes x all 2^16 tails (accept/reject frontier at byte 10); all 2^16 values through 16-bit write->read; all sizes 0..=255 for sized reads; reserved initial lengths. random: boundary-biased 64-bit values through every writer and back, random byte strings <=24 bytes through every LEB reader, fixed-width reads vs from_{le,be}_bytes. Oracle: bit-group LEB128 model, independent encoder. Non-trivial = LEB input of >=2 bytes or a write->read case with a value >= 128; distinct by input bytes. Later additions: the ReaderOffset conversions of u32/u64/usize at every power of two and its neighbours."
     }
     fn assumptions(&self) -> Vec<&'static str> {
         vec![
